@@ -2,6 +2,7 @@
 // thread-confined; results are keyed by run index, so the worker count changes nothing).
 
 use crate::gen_alias;
+use crate::gen_fault;
 use crate::rng::{mix3, tag};
 use crate::run::*;
 use serde::{Deserialize, Serialize};
@@ -24,6 +25,22 @@ pub fn generate(profile: &str, seed: u64, index: u64) -> Generated {
     match profile {
         "alias" => {
             let o = gen_alias::generate(seed, fault_free);
+            Generated {
+                script: o.script,
+                kinds: o.kinds,
+                nontrivial: o.nontrivial,
+            }
+        }
+        "sweep" | "sweep-full" => {
+            let o = gen_fault::generate(seed, index, profile == "sweep-full");
+            Generated {
+                script: o.script,
+                kinds: o.kinds,
+                nontrivial: o.nontrivial,
+            }
+        }
+        "sweep-inf-probe" => {
+            let o = gen_fault::generate_mode(seed, index, true, gen_fault::InfMode::OnlyInf);
             Generated {
                 script: o.script,
                 kinds: o.kinds,
@@ -85,6 +102,8 @@ pub fn rendered(script: &Script) -> Vec<String> {
 }
 
 pub struct BatchCfg {
+    /// run only indices congruent to `only_mod.0` modulo `only_mod.1` (probing tool)
+    pub only_mod: Option<(u64, u64)>,
     pub profile: String,
     pub base_seed: u64,
     pub runs: u64,
@@ -111,6 +130,11 @@ pub fn run_batch(cfg: &BatchCfg) -> (Agg, f64, bool) {
                     let i = next.fetch_add(1, Ordering::Relaxed);
                     if i >= cfg.runs {
                         break;
+                    }
+                    if let Some((r, m)) = cfg.only_mod {
+                        if i % m != r {
+                            continue;
+                        }
                     }
                     if i % 256 == 0 && start.elapsed().as_secs_f64() > cfg.wall_cap_s {
                         // the cap only stops launching runs; no verdict depends on it
@@ -172,6 +196,9 @@ pub fn run_batch(cfg: &BatchCfg) -> (Agg, f64, bool) {
                             RunEnd::Violation(v) => format!("violation: {:?}", v.kind),
                         }));
                         std::fs::write(path, text).unwrap();
+                    }
+                    for v in res.nonfatal.iter() {
+                        local.violations.push((i, v.clone(), g.script.clone()));
                     }
                     match res.end {
                         RunEnd::Completed => {
@@ -311,10 +338,32 @@ pub fn property_of(check_property: &str, v: &Violation) -> String {
     }
 }
 
-pub fn profiles_for(property: &str) -> Vec<&'static str> {
+/// (profile, runs) per tier. `runs` for sampled profiles scales with the tier; enumerating profiles
+/// (sweep) derive it from the size of their grid.
+pub fn profiles_for(property: &str, tier: &str) -> Vec<(&'static str, u64)> {
+    let thorough = tier == "thorough";
+    let nb = gen_fault::global_names().len() as u64;
     match property {
-        "C01" => vec!["alias"],
+        "C01" => vec![("alias", if thorough { 3_000_000 } else { 200_000 })],
+        "C14" => {
+            if thorough {
+                vec![
+                    ("sweep-full", nb * gen_fault::parts_per_builtin()),
+                    ("sweep", nb * 12),
+                    ("alias", 600_000),
+                ]
+            } else {
+                vec![("sweep", nb * 3), ("alias", 60_000)]
+            }
+        }
         p => panic!("no profile for property {}", p),
+    }
+}
+
+pub fn level_for(property: &str) -> &'static str {
+    match property {
+        "C14" => "fault_enumeration",
+        _ => "exploration",
     }
 }
 
@@ -352,6 +401,16 @@ pub fn do_replay(path: &str) -> i32 {
     let res = execute(&r.script);
     for l in res.log.iter() {
         println!("{}", l);
+    }
+    for v in res.nonfatal.iter() {
+        if crate::min::class_of(v) == crate::min::class_of(&r.violation) && v.stmt_index == r.violation.stmt_index {
+            println!(
+                "replay: violation kind={:?} stmt={} expected={} observed={}",
+                v.kind, v.stmt_index, v.expected, v.observed
+            );
+            println!("VIOLATION property={} replay={}", r.property, path);
+            return 1;
+        }
     }
     match res.end {
         RunEnd::Violation(v) => {
@@ -391,31 +450,32 @@ pub fn do_check(args: &[String]) -> i32 {
     let evidence_path = arg_val(args, "--evidence").unwrap_or_else(|| format!("evidence/{}.json", property));
     let replay_dir = arg_val(args, "--replays").unwrap_or_else(|| "replays".to_string());
     let known = load_known(&arg_val(args, "--known").unwrap_or_else(|| "known_findings.json".to_string()));
-    let (runs, cap, seeds): (u64, f64, Vec<u64>) = if tier == "thorough" {
+    let (cap, seeds): (f64, Vec<u64>) = if tier == "thorough" {
         (
-            arg_val(args, "--runs").and_then(|s| s.parse().ok()).unwrap_or(1_500_000),
-            arg_val(args, "--cap").and_then(|s| s.parse().ok()).unwrap_or(900.0),
+            arg_val(args, "--cap").and_then(|s| s.parse().ok()).unwrap_or(1500.0),
             vec![seed, seed.wrapping_add(1), seed.wrapping_mul(31).wrapping_add(7)],
         )
     } else {
-        (
-            arg_val(args, "--runs").and_then(|s| s.parse().ok()).unwrap_or(40_000),
-            arg_val(args, "--cap").and_then(|s| s.parse().ok()).unwrap_or(120.0),
-            vec![seed],
-        )
+        (arg_val(args, "--cap").and_then(|s| s.parse().ok()).unwrap_or(240.0), vec![seed])
     };
+    let runs_override: Option<u64> = arg_val(args, "--runs").and_then(|s| s.parse().ok());
     println!("VERIF_SEED={} property={} tier={}", seed, property, tier);
     let start = Instant::now();
-    let profiles = profiles_for(&property);
+    let profiles = profiles_for(&property, &tier);
     let mut total = Agg::default();
     let mut capped_any = false;
     let mut per_profile = Vec::new();
-    for prof in profiles.iter() {
-        for (si, s) in seeds.iter().enumerate() {
+    for (prof, prof_runs) in profiles.iter() {
+        // enumerating profiles walk their grid once; the seed only varies hasher/sample choices
+        let enumerating = prof.starts_with("sweep-full");
+        let seeds_here: Vec<u64> = if enumerating { vec![seeds[0]] } else { seeds.clone() };
+        let runs = runs_override.unwrap_or(*prof_runs);
+        for (si, s) in seeds_here.iter().enumerate() {
             let cfg = BatchCfg {
+                only_mod: None,
                 profile: prof.to_string(),
                 base_seed: *s,
-                runs: runs / seeds.len() as u64,
+                runs: (runs / seeds_here.len() as u64).max(1),
                 threads,
                 wall_cap_s: cap / (profiles.len() * seeds.len()) as f64,
                 log_dir: None,
@@ -517,7 +577,7 @@ pub fn do_check(args: &[String]) -> i32 {
         "property_id": property,
         "tier": tier,
         "seed": seed,
-        "level": "exploration",
+        "level": level_for(&property),
         "wall_s": wall,
         "violations": new_violations.len(),
         "assumptions": [
@@ -591,6 +651,13 @@ pub fn main(args: Vec<String>) -> i32 {
     let cmd = args.get(1).map(|s| s.as_str()).unwrap_or("");
     match cmd {
         "check" => do_check(&args),
+        "list-builtins" => {
+            for (i, n) in gen_fault::global_names().iter().enumerate() {
+                println!("{} {}", i, n);
+            }
+            println!("parts_per_builtin {}", gen_fault::parts_per_builtin());
+            0
+        }
         "replay" => match args.get(2) {
             Some(p) => do_replay(p),
             None => 2,
@@ -601,6 +668,10 @@ pub fn main(args: Vec<String>) -> i32 {
             let runs: u64 = arg_val(&args, "--runs").and_then(|s| s.parse().ok()).unwrap_or(1000);
             let threads: usize = arg_val(&args, "--threads").and_then(|s| s.parse().ok()).unwrap_or(16);
             let cfg = BatchCfg {
+                only_mod: arg_val(&args, "--only-mod").map(|s| {
+                    let mut it = s.split('/');
+                    (it.next().unwrap().parse().unwrap(), it.next().unwrap().parse().unwrap())
+                }),
                 profile,
                 base_seed: seed,
                 runs,
@@ -635,6 +706,17 @@ pub fn main(args: Vec<String>) -> i32 {
                 *by_kind.entry(format!("{:?}", v.kind)).or_insert(0) += 1;
             }
             println!("violations by kind: {:?}", by_kind);
+            if args.iter().any(|a| a == "--uniq") {
+                let mut uniq: BTreeMap<String, (u64, String)> = BTreeMap::new();
+                for (_, v, _) in agg.violations.iter() {
+                    let key = format!("{:?} | {}", v.kind, v.observed);
+                    let e = uniq.entry(key).or_insert((0, v.source.clone()));
+                    e.0 += 1;
+                }
+                for (k, (n, src)) in uniq.iter() {
+                    println!("{:6}x {} | e.g. {}", n, k, src);
+                }
+            }
             let show: usize = arg_val(&args, "--show").and_then(|s| s.parse().ok()).unwrap_or(3);
             let do_min = args.iter().any(|a| a == "--min");
             for (i, v, s) in agg.violations.iter().take(show) {
